@@ -97,3 +97,30 @@ Example C08_example_old_loop_loses_an_entry :
     = [(2, 2); (3, 13); (14, 23)] /\
   entries_spec ex_marker ex_db = [(2, 2); (3, 13); (14, 23)].
 Proof. vm_compute. repeat split. Qed.
+
+(* ------------------------------------------------------------------ *)
+(* Link to the model of the REAL scanner (Scan.get_next_entry, property C14): the stream theorems above scan by
+   the specification next_entry; for every non-empty marker, every read block size and every file position, one
+   call of the buffered scanner model returns exactly that (coordinates with the file left on the entry's first
+   byte in the whole-file tool's mode; the bytes of the span with the file left at the entry's end in the header
+   tool's mode).  With C14_scan_spec (the scanner model = the code, by correspondence) this discharges the
+   assumption "the scanner equals its spec" that C08, C13 and C03 were built on. *)
+From PFF Require Scan Proofs.ScanLink.
+
+Theorem C08_scanner_link : forall m bs s pos, m <> [] ->
+  Scan.get_next_entry m true bs s pos =
+    match next_entry m s pos with
+    | Some (a, e) => (Scan.RCoord a e, a)
+    | None => (Scan.RNone, Nat.max pos (length s))
+    end /\
+  Scan.get_next_entry m false bs s pos =
+    match next_entry m s pos with
+    | Some (a, e) => (Scan.RBytes (firstn (e - a) (skipn a s)), e)
+    | None => (Scan.RNone, Nat.max pos (length s))
+    end.
+Proof.
+  intros m bs s pos Hm. split.
+  - exact (ScanLink.scanner_is_next_entry m bs s pos Hm).
+  - exact (ScanLink.scanner_is_next_entry_content m bs s pos Hm).
+Qed.
+Print Assumptions C08_scanner_link.
